@@ -3,6 +3,7 @@
 From Coq Require Import List ZArith NArith Bool.
 From RRSS Require Import Base.Outcome Base.Chars Base.F64 Exec.Val Exec.Ops Front.Ast Exec.Env Exec.Interp.
 From RRSS Require Import Exec.Sem Proofs.InterpInv Proofs.InterpLaws Proofs.SemRefine.
+From RRSS Require Import Proofs.FuelMono.
 Import ListNotations.
 
 (** an if evaluates its condition once and runs exactly one branch, chosen by truthiness *)
@@ -112,5 +113,12 @@ Theorem C04_output_preserved_program :
   end.
 Proof. exact output_preserved_program. Qed.
 
+(** more fuel never changes what a statement does *)
+Theorem C04_fuel_irrelevant :
+  forall prof f f' s xs e, (f <= f')%nat -> exec_stmt prof f s xs e <> XOutOfFuel ->
+  exec_stmt prof f' s xs e = exec_stmt prof f s xs e.
+Proof. exact exec_stmt_fuel_irrelevant. Qed.
+
 Print Assumptions C04_output_preserved_program.
 Print Assumptions C04_exec_stmt_refines.
+Print Assumptions C04_fuel_irrelevant.
